@@ -59,6 +59,9 @@ pub struct SimCfg {
     /// per-mille chance of an early probe poll after a regular poll
     pub probe_pm: u32,
     pub max_events: u64,
+    /// the applications abort both sockets at this instant (the run ends there; the sockets are
+    /// then reused for another connection)
+    pub abort_at: Option<Micros>,
 }
 
 pub struct TaggedViolation {
@@ -93,6 +96,7 @@ pub struct SimStats {
     pub events: u64,
     pub rst_seen: u64,
     pub storm: bool,
+    pub aborted_by_plan: bool,
 }
 
 
@@ -360,6 +364,7 @@ pub fn random_cfg(rng: &mut Rng, thorough: bool) -> SimCfg {
         early_polls: rng.bool(),
         probe_pm: *rng.pick(&[0u32, 50, 200, 500]),
         max_events: 400_000,
+        abort_at: if rng.chance(1, 10) { Some(rng.range(1_000, (hostile_until.max(2_000_000)) as u64) as Micros) } else { None },
     }
 }
 
@@ -518,6 +523,8 @@ impl TcpSim {
         if c2.hostile_until > 0 {
             c2.hostile_until += base;
         }
+        c2.abort_at = c2.abort_at.map(|a| a + base);
+        self.stats.aborted_by_plan = false;
         for e in c2.ep.iter_mut() {
             for p in e.read_pauses.iter_mut() {
                 p.0 += base;
@@ -1152,6 +1159,24 @@ impl TcpSim {
                 if let Some(w) = self.wake[i] {
                     t = t.min(w.max(self.now));
                 }
+            }
+            if let Some(a) = self.cfg.abort_at {
+                if self.now >= a {
+                    // the applications give up: both sockets are aborted, whatever was in flight or
+                    // buffered out of order is abandoned, and the case goes on with socket reuse
+                    for i in 0..2 {
+                        self.sock(i).abort();
+                    }
+                    for i in 0..2 {
+                        let _ = self.hosts[i].poll(self.now);
+                    }
+                    self.queue.clear();
+                    self.stats.aborted_by_plan = true;
+                    self.stats.completed = true;
+                    self.stats.completion_time = self.now;
+                    break;
+                }
+                t = t.min(a.max(self.now));
             }
             let net_idle = t == Micros::MAX;
             if net_idle {
